@@ -28,6 +28,9 @@ RULE = (
 RULE += (
     ' Children may list a plain Python mix-in before or after the model parent.'
 )
+RULE += (
+    ' Round 9: OneOf / AnyOf(ancestor, child) must give the verdicts of the same composition over the ancestor and the flat class.'
+)
 ASSUMPTIONS = [
     "reconfiguration of the child is reassignment-style only; mutating a container inherited by reference in place is not claimed by the statement",
     "effective JSON names of the merged properties are unique (ambiguous declarations are not generated)",
@@ -195,6 +198,21 @@ def compare(child, flat, values, classes_chain, label):
                                   "ancestor": anc.__name__, "when": label})
                     break
             break
+    # the subclass standing NEXT TO an ancestor in a composition behaves like the flat class standing there
+    from statham.schema.elements import AnyOf, OneOf
+
+    for anc in classes_chain:
+        if anc is child:
+            continue
+        for comp in (OneOf, AnyOf):
+            with_child, with_flat = comp(anc, child), comp(anc, flat)
+            for value in values[:6]:
+                a, b = observe.verdict(with_child, value), observe.verdict(with_flat, value)
+                if a[0] != b[0]:
+                    fails.append({"sub": "composition", "kind": f"{comp.__name__}(ancestor, child)-{a[0]}-vs-flat-{b[0]}",
+                                  "ancestor": anc.__name__, "value": value, "when": label})
+                    break
+        break
     ja, jb = observe.ser_json(child), observe.ser_json(flat)
     if ja[0] != jb[0]:
         fails.append({"sub": "json", "kind": "serialisation-outcome-differs", "detail": [ja[0], jb[0]], "when": label})
